@@ -59,6 +59,7 @@ PCore == Under(P, {"f.js", "e.mjs", "c.cjs", "g.json", "a.js", "lib/u.js", "lib/
 PPat == UNION { Under(P \o "/" \o d, PatFiles) : d \in {"d1", "d2", "d3", "d4", "d5", "d6"} }
 QNested  == Under(P \o "/node_modules/q", {"nested.js", "common.js", "x.js"})
 QHoisted == Under("/node_modules/q", {"hoisted.js", "common.js", "x.js", "f.js"})
+              \cup {"/node_modules/x.js"}    \* what p's invalid target "../x.js" would escape to
 Others == {"/node_modules/r/index.js", "/node_modules/s.js",
            "/node_modules/@s/p/i.js", "/node_modules/@s/p/s.js", "/node_modules/@s/p/pat/k.js",
            "/node_modules/@s/p/other.js", "/node_modules/@s/n/m.js",
@@ -150,7 +151,7 @@ E2 == CondObjs(1, CondVals) \cup CondObjs(2, CondVals)
 InnerVals == { S("./f.js"), S("./e.mjs"), JNull }
 Inner == UNION { { JObj(ks, vs) : vs \in [1..2 -> InnerVals] } : ks \in OrdSeqs({"import", "require", "default", "browser"}, 2) }
 E3 == UNION { { Obj1(k1, in), Obj2(k1, in, "default", S("./c.cjs")), Obj2("default", S("./c.cjs"), k1, in) }
-              : k1 \in {"node", "import", "browser"}, in \in Inner }
+              : k1 \in (IF Level >= 2 THEN {"node", "import", "browser"} ELSE {"node", "browser"}), in \in Inner }
         \cup { Obj1(".", Obj2("node", in, "default", S("./c.cjs"))) : in \in Inner }
         \cup (IF Level >= 2
               THEN UNION { { Obj1("./a", Obj2(k1, in, "default", S("./c.cjs"))),
